@@ -143,6 +143,12 @@ func chooseInputs(o *obs, m *lrm.Machine, k int) []string {
 	for _, in := range all {
 		add(in)
 	}
+	// one parse that is aborted by a panic of USER code (the harness lexer gives up on the character
+	// \x01) in the middle of a sentence: a failed parse like any other as far as later parses go
+	if len(acc) > 0 {
+		s := acc[len(acc)-1]
+		picked = append(picked, s[:(len(s)+1)/2]+"\x01")
+	}
 	return picked
 }
 
@@ -275,6 +281,13 @@ func c15Batch(w *Worker, cases []*genCase, name string) {
 		for k, in := range h {
 			w.Count("history_parses", 1)
 			want := e.o.predict(m, in)
+			if strings.Contains(in, "\x01") {
+				// the lexer panics at that character: what the parse alone gives is that panic
+				want = rt.Result{Class: "crash"}
+				if rs[k].Class == "crash" && !strings.Contains(rs[k].Panic, "harness: the lexer gives up") {
+					rs[k].Class = "crash-of-another-kind"
+				}
+			}
 			if rs[k].Later != "" {
 				w.Violate("C15|result-changed-by-later-parse|"+v+"|"+mode+"|"+key+"|"+strings.Join(h, ","),
 					fmt.Sprintf("parse %d of the history %q on the %s parser (%s) of grammar [%s]: Parser(%q) returned the value %d/%q; after the later parses of the history the same returned value reads %s",
